@@ -38,7 +38,59 @@ func Run(c *engine.Ctx) {
 			c.Case(func() any { return pairDesc{A: A, B: B} }, func(t *engine.T) *engine.Violation { return pairCase(t, A, B) })
 		}
 	}
+	for _, fam := range []string{"collisions", "wide"} {
+		F := c09.Lists(c.Thorough(), fam)
+		c.Group(fam)
+		c.Bound(fam, fmt.Sprintf("all %d x %d ordered pairs of the %s family", len(F), len(F), fam))
+		for i := range F {
+			for j := range F {
+				A, B := F[i], F[j]
+				c.Case(func() any { return pairDesc{A: A, B: B} }, func(t *engine.T) *engine.Violation { return pairCase(t, A, B) })
+			}
+		}
+	}
 	attrCube(c)
+	sameRuleAsUnion(c)
+}
+
+// sameRuleAsUnion: "attributes of surviving nodes follow the same rule as union" -- for a shared node every field,
+// the node type included, must come out of Intersect exactly as it comes out of Union (whatever that rule is for type).
+func sameRuleAsUnion(c *engine.Ctx) {
+	c.Group("same-rule-as-union")
+	all := gen.Fields(&sbom.Node{})
+	for ta := 0; ta < 2; ta++ {
+		for tb := 0; tb < 2; tb++ {
+			for bg := 0; bg < 2; bg++ {
+				ta, tb, bg := ta, tb, bg
+				c.Case(func() any { return map[string]any{"A.type": ta, "B.type": tb, "populated": bg == 1} }, func(t *engine.T) *engine.Violation {
+					mk := func(ty int, tag string, k int) *sbom.NodeList {
+						n := &sbom.Node{}
+						if bg == 1 {
+							gen.Full(n, tag, 2)
+						}
+						n.Id, n.Type = "shared", sbom.Node_NodeType(ty)
+						return &sbom.NodeList{Nodes: []*sbom.Node{n}}
+					}
+					x := mk(ta, "A", 1).Intersect(mk(tb, "B", 2))
+					u := mk(ta, "A", 1).Union(mk(tb, "B", 2))
+					t.Transitions(2)
+					t.Validated(1)
+					xn, un := x.GetNodeByID("shared"), u.GetNodeByID("shared")
+					if xn == nil || un == nil {
+						return engine.Violate("intersect-nodes", "same-rule", "shared node missing")
+					}
+					for _, fd := range all {
+						if a, b := gen.FieldSnap(xn, fd), gen.FieldSnap(un, fd); a != b {
+							return engine.Violate("intersect-same-rule-as-union", string(fd.Name()), "field %s of the shared node: Intersect gives %q, Union gives %q (A.type=%d B.type=%d)", fd.Name(), a, b, ta, tb)
+						}
+					}
+					t.State(fmt.Sprintf("samerule|%d|%d|%d", ta, tb, bg))
+					t.Outcome("same-rule-ok")
+					return nil
+				})
+			}
+		}
+	}
 }
 
 func pairCase(t *engine.T, A, B gen.ListSpec) *engine.Violation {
